@@ -84,6 +84,9 @@ pub fn documents(tier: Tier) -> Vec<A> {
     out.push(A::doc(vec![A::el("", "a").attr("", "k", "\u{20ac}\u{201c}\u{2122}").child(A::text("\u{2013}\u{e9}\u{20ac}x\u{178}"))]));
     // 3e. namespace URIs with white space (attribute-value normalisation applies to declarations too)
     out.push(A::doc(vec![A::el("u v", "a").decl("p", "u v").decl("", "x  y").attr("u v", "k", "1").child(A::el("x  y", "b"))]));
+    // 3f. local names that only look special: a prefixed attribute called "xmlns" is an ordinary attribute, an element
+    //     called xmlns / xml is an ordinary element, attributes called id / space outside the XML namespace are plain
+    out.push(A::doc(vec![A::el("", "a").decl("p", X).attr(X, "xmlns", "urn:q").child(A::el("", "xmlns").attr(X, "id", " i ").attr("", "space", "preserve").child(A::el(X, "xml")))]));
     // 4. xml:id and xml:space
     out.push(A::doc(vec![A::el("", "a").attr(XML_NS, "id", "i").child(A::el("", "b").attr(XML_NS, "id", "j k").attr(XML_NS, "space", "preserve"))]));
     out.push(A::doc(vec![A::el("", "a").attr("", "id", " x  y ").attr(XML_NS, "id", "a b")]));
